@@ -58,7 +58,9 @@ ASSUMPTIONS = [
     "batch fits use well-conditioned data: synthetic curves of the selected model near the profile's "
     "initial parameters, contact point 0, >= 600 approach samples, fit interval covering contact and "
     "baseline; curves carry an innate tip position when the profile lacks compute_tip_position; the "
-    "recorded curve is added only when the profile computes and offsets the tip position",
+    "recorded curve is added only when the profile computes and offsets the tip position; force noise is "
+    "limited to 0.3 % of the force range when smooth_height is selected (the step raises 'Reached max_iter' "
+    "on noisier soft-cantilever data, which is a limit of that step and not of the profile)",
     "E column is not compared for models without a parameter named E (two-layer model); only that "
     "the batch does not raise and the other columns are right",
     "batch fit == scripted fit with the same settings (docs: 'The fitting results are identical'), "
@@ -116,7 +118,7 @@ def close(a, b, ulps=4):
     if isinstance(a, bool) or isinstance(b, bool) or not isinstance(a, (int, float)) \
             or not isinstance(b, (int, float)):
         return False
-    return abs(a - b) <= ulps * EPS * max(abs(a), abs(b))
+    return a == b or abs(a - b) <= ulps * EPS * max(abs(a), abs(b))
 
 
 def decls():
@@ -736,11 +738,16 @@ def check_batch(case, ctx):
     folder = d / "data"
     folder.mkdir()
     need_tip = "compute_tip_position" not in pre
+    # smooth_height gives up (ValueError: Reached `max_iter`) on height data with > 1000 runs of equal
+    # median-filtered values, e.g. 2 % force noise on a 0.02 N/m cantilever: a limit of that step, not of the profile
+    smooth = "smooth_height" in pre
     expected_rows = []
     for fi, fspec in enumerate(case["files"]):
         sub = folder / fspec["dir"] if fspec["dir"] else folder
         sub.mkdir(exist_ok=True)
-        cases = [curve_for(state, tab, dict(c, with_tip=c["with_tip"] or need_tip)) for c in fspec["curves"]]
+        cases = [curve_for(state, tab, dict(c, with_tip=c["with_tip"] or need_tip,
+                                            noise=min(c["noise"], 0.003) if smooth else c["noise"]))
+                 for c in fspec["curves"]]
         fp = synth.write_h5(cases, sub / f"synth{fi}.h5")
         expected_rows += [(fp, e) for e in range(len(cases))]
     rec_ok = ("compute_tip_position" in pre and "correct_tip_offset" in pre)
